@@ -38,6 +38,9 @@ def make_transform(rng, gd, kind):
     elif kind == "reverse_alphabet":
         srt = sorted(labs)
         perm, shuffle, ren = list(range(n)), None, dict(zip(srt, srt[::-1]))
+    elif kind == "empty_label":
+        # "" is a legal action name; renaming one action to it must change nothing else
+        perm, shuffle, ren = list(range(n)), None, ({rng.choice(labs): ""} if labs else {})
     else:
         perm = games.random_perm(rng, n)
         shuffle = rng.choice([None, "random", "random", "reverse"])
@@ -87,7 +90,7 @@ def compare(gd, gd2, tf, out, out2, prune, an):
     if s1 != "ok":
         return problems, known, stats
     r1, r2 = out.result, out2.result
-    if tf["kind"] in ("rotate_labels", "reverse_alphabet") and not tf["shuffle"] and tf["perm"] == list(range(n)):
+    if tf["kind"] in ("rotate_labels", "reverse_alphabet", "empty_label") and not tf["shuffle"] and tf["perm"] == list(range(n)):
         # renaming only: numbering and transition order are untouched, so the computation must be the same one step for
         # step - every numeric output identical (==), iteration counts included; strategies equal up to the renaming
         stats["rename_only_pairs"] = 1
@@ -285,7 +288,7 @@ def decide(gd, idx, cls, tier, rng, tfs=None):
         return res
     if tfs is None:
         k = 4 if tier == "quick" else 12
-        tfs = [make_transform(rng, gd, kd) for kd in ["reverse_numbering", "reverse_lists", "rotate_labels", "reverse_alphabet"] + ["random"] * k]
+        tfs = [make_transform(rng, gd, kd) for kd in ["reverse_numbering", "reverse_lists", "rotate_labels", "reverse_alphabet", "empty_label"] + ["random"] * k]
     base = {p: monitors.observed_solve(games.to_solver(gd), p, limit) for p in (True, False)}
     problems, known = [], []
     for tf in tfs:
